@@ -533,3 +533,198 @@ pub mod c16_batcher {
         run_suite("c16_batcher", generate, exec);
     }
 }
+
+// ------------------------------------------------------------------------------------------
+// C04 — MAC accumulators (agent a9). Everything is inside `c04_pure`.
+//
+// The real `MaliciousAccumulator::accumulate_macs` (public) is driven with a scripted `SharedRandomness`
+// (so the random constant alpha of a call is chosen by the request) on the accumulator of a real
+// `validator::Malicious` (its `accumulator` field and `u_and_w()` are `pub(super)`, hence visible here).
+// The difference of (u, w) before / after one call is exactly
+//   du = compute_dot_product_contribution(alpha, rx),  dw = compute_dot_product_contribution(alpha, induced(x)).
+//
+// Requests (values decimal, canonical field elements):
+//   c04.acc1 <field> <al>,<ar> <xl>,<xr> <ml>,<mr>           one helper's view      -> `<du> <dw>`
+//   c04.acc3 <field> <a1>,<a2>,<a3> <x1>,<x2>,<x3> <m1>,<m2>,<m3>   the three helpers' views of the sharings
+//                                                            -> `<du1>,<du2>,<du3> <dw1>,<dw2>,<dw3>`
+//   c04.accg Fp31 <al> <ar>     all 31*31 pairs (bl, br): x = (bl, br), rx = (br, bl)
+//                                                            -> `<du…(961)> <dw…(961)>`
+pub mod c04_pure {
+    use std::cell::RefCell;
+
+    use generic_array::{ArrayLength, GenericArray, sequence::GenericSequence};
+
+    use super::super::{
+        Context, MaliciousContext,
+        validator::{Malicious, MaliciousAccumulator},
+    };
+    use crate::{
+        ff::{Fp31, Fp32BitPrime, PrimeField, U128Conversions},
+        helpers::Direction,
+        ipa_verif::proto::*,
+        protocol::{
+            RecordId,
+            prss::{FromPrss, PrssIndex, SharedRandomness},
+        },
+        secret_sharing::replicated::{
+            ReplicatedSecretSharing,
+            malicious::{AdditiveShare as MaliciousReplicated, ExtendableField},
+            semi_honest::AdditiveShare as Replicated,
+        },
+        sharding::NotSharded,
+        test_fixture::TestWorld,
+    };
+
+    /// PRSS whose left / right values are scripted.
+    struct Scripted {
+        left: u128,
+        right: u128,
+    }
+
+    impl SharedRandomness for Scripted {
+        type ChunkIter<'a, Z: ArrayLength> = std::iter::Once<GenericArray<u128, Z>>;
+
+        fn generate_chunks_one_side<I: Into<PrssIndex>, Z: ArrayLength>(
+            &self,
+            _index: I,
+            direction: Direction,
+        ) -> Self::ChunkIter<'_, Z> {
+            let v = if direction == Direction::Left { self.left } else { self.right };
+            std::iter::once(GenericArray::generate(|_| v))
+        }
+
+        fn generate_chunks_iter<I: Into<PrssIndex>, Z: ArrayLength>(
+            &self,
+            _index: I,
+        ) -> impl Iterator<Item = (GenericArray<u128, Z>, GenericArray<u128, Z>)> {
+            std::iter::once((GenericArray::generate(|_| self.left), GenericArray::generate(|_| self.right)))
+        }
+    }
+
+    fn one<F>(acc: &RefCell<MaliciousAccumulator<F>>, a: (u128, u128), x: (u128, u128), m: (u128, u128)) -> (u128, u128)
+    where
+        F: ExtendableField<ExtendedField = F> + U128Conversions,
+        Replicated<F>: FromPrss,
+    {
+        let f = |v: u128| F::truncate_from(v);
+        let share = MaliciousReplicated::<F>::new(Replicated::new(f(x.0), f(x.1)), Replicated::new(f(m.0), f(m.1)));
+        let mut acc = acc.borrow_mut();
+        let (u0, w0) = acc.u_and_w();
+        acc.accumulate_macs(&Scripted { left: a.0, right: a.1 }, RecordId::FIRST, &share);
+        let (u1, w1) = acc.u_and_w();
+        ((u1 - u0).as_u128(), (w1 - w0).as_u128())
+    }
+
+    fn pair(s: &str) -> (u128, u128) {
+        let v = parse_nat_list::<u128>(s);
+        (v[0], v[1])
+    }
+
+    fn exec_f<F>(acc: &RefCell<MaliciousAccumulator<F>>, t: &[&str]) -> String
+    where
+        F: ExtendableField<ExtendedField = F> + U128Conversions,
+        Replicated<F>: FromPrss,
+    {
+        match t[0] {
+            "c04.acc1" => {
+                let (du, dw) = one(acc, pair(t[2]), pair(t[3]), pair(t[4]));
+                format!("{du} {dw}")
+            }
+            "c04.acc3" => {
+                let a = parse_nat_list::<u128>(t[2]);
+                let x = parse_nat_list::<u128>(t[3]);
+                let m = parse_nat_list::<u128>(t[4]);
+                let mut du = vec![];
+                let mut dw = vec![];
+                for h in 0..3 {
+                    let n = (h + 1) % 3;
+                    let (u, w) = one(acc, (a[h], a[n]), (x[h], x[n]), (m[h], m[n]));
+                    du.push(u);
+                    dw.push(w);
+                }
+                format!("{} {}", nat_list(&du), nat_list(&dw))
+            }
+            "c04.accg" => {
+                let al: u128 = t[2].parse().unwrap();
+                let ar: u128 = t[3].parse().unwrap();
+                let mut du = vec![];
+                let mut dw = vec![];
+                for bl in 0..31u128 {
+                    for br in 0..31u128 {
+                        let (u, w) = one(acc, (al, ar), (bl, br), (br, bl));
+                        du.push(u);
+                        dw.push(w);
+                    }
+                }
+                format!("{} {}", nat_list(&du), nat_list(&dw))
+            }
+            _ => panic!("harness: unknown request {}", t[0]),
+        }
+    }
+
+    fn generate(rng: &mut Rng, thorough: bool) -> Vec<String> {
+        let mut out = vec![];
+        // Fp31: the complete domain of one call (31^4 operand tuples), one line per (al, ar)
+        for al in 0..31u128 {
+            for ar in 0..31u128 {
+                out.push(format!("c04.accg Fp31 {al} {ar}"));
+            }
+        }
+        for (f, p) in [("Fp31", 31u128), ("Fp32BitPrime", u128::from(Fp32BitPrime::PRIME))] {
+            let edge: Vec<u128> = vec![0, 1, 2, p - 1, p - 2, p / 2, p / 2 + 1];
+            // boundary values in every operand position of one view
+            for &al in &edge {
+                for &ar in &edge {
+                    for &(xl, xr, ml, mr) in &[(0, 0, 0, 0), (p - 1, p - 1, p - 1, p - 1), (1, 0, 0, 1), (0, 1, p - 1, 0),
+                        (p - 1, 1, 2, p - 2), (p / 2, p / 2 + 1, p / 2 + 1, p / 2)]
+                    {
+                        out.push(format!("c04.acc1 {f} {al},{ar} {xl},{xr} {ml},{mr}"));
+                    }
+                }
+            }
+            // three helpers' views of sharings: boundary and random
+            for &a in &[0u128, 1, p - 1] {
+                for &x in &[0u128, 1, p - 1] {
+                    for &m in &[0u128, 2, p - 1] {
+                        out.push(format!("c04.acc3 {f} {a},{a},{a} {x},{x},{x} {m},{m},{m}"));
+                        out.push(format!("c04.acc3 {f} {a},0,{} {x},{},0 0,{m},{}", p - 1, p - 1, p - 2));
+                    }
+                }
+            }
+            let n = if thorough { 20000 } else { 1500 };
+            for _ in 0..n {
+                let v: Vec<u128> = (0..9).map(|_| rng.next_u128() % p).collect();
+                out.push(format!(
+                    "c04.acc3 {f} {},{},{} {},{},{} {},{},{}",
+                    v[0], v[1], v[2], v[3], v[4], v[5], v[6], v[7], v[8]
+                ));
+            }
+            for _ in 0..n {
+                let v: Vec<u128> = (0..6).map(|_| rng.next_u128() % p).collect();
+                out.push(format!("c04.acc1 {f} {},{} {},{} {},{}", v[0], v[1], v[2], v[3], v[4], v[5]));
+            }
+        }
+        out
+    }
+
+    #[test]
+    fn verif_c04_pure() {
+        // one TestWorld (needs a runtime for its background tasks) and one real `Malicious` per field
+        let rt = tokio::runtime::Builder::new_multi_thread().worker_threads(2).enable_all().build().unwrap();
+        let _guard = rt.enter();
+        let world = TestWorld::<NotSharded>::default();
+        let [c1, c2, _c3]: [MaliciousContext<'_, NotSharded>; 3] = world.malicious_contexts();
+        let m31 = Malicious::<Fp31, NotSharded>::new(c1.narrow("c04-fp31").set_total_records(1usize), 0);
+        let m32 = Malicious::<Fp32BitPrime, NotSharded>::new(c2.narrow("c04-fp32").set_total_records(1usize), 0);
+        let a31 = RefCell::new(m31.accumulator);
+        let a32 = RefCell::new(m32.accumulator);
+        run_suite("c04_pure", generate, |req| {
+            let t: Vec<&str> = req.split(' ').collect();
+            match t[1] {
+                "Fp31" => exec_f::<Fp31>(&a31, &t),
+                "Fp32BitPrime" => exec_f::<Fp32BitPrime>(&a32, &t),
+                f => panic!("harness: unknown field {f}"),
+            }
+        });
+    }
+}
